@@ -14,7 +14,7 @@ def run(ctx):
     ls = []
     quick = ctx.tier == "quick"
     ls += C03.p2_lemmas(ctx.tier, lengths=(list(range(2, 7)) if quick else None), with_long=not quick)
-    ls += lemmas_stage2.p3_lemmas(ctx.tier, ndjson=((0,) if quick else (0, 1)))
+    ls += lemmas_stage2.p3_lemmas("quick", ndjson=((0,) if quick else (0, 1)))      # the larger layouts (K4 ... K9alt) are C01's thorough tier
     ls += [l for l in lemmas_stage2.u1_lemmas(ctx.tier) if not quick or ".K2." in l.name or (".fresh" in l.name and ".json." in l.name)]
     ls += lemmas_stage2.u3_lemmas(ctx.tier)
     ls += lemmas_stage2.s6_lemmas(ctx.tier)
